@@ -87,6 +87,24 @@ func (k *kind) value(i int) goatlang.Value {
 	return goatlang.Float64(f)
 }
 
+func (k *kind) negZero(op Op) bool { return k.Name == "float64" && op.Key == 0 && op.Neg }
+
+// val and lit give the key of an operation as a host value and as script text. Negative zero cannot be written as
+// a Go constant; the script computes it by negating the variable fz (0.0).
+func (k *kind) val(op Op) goatlang.Value {
+	if k.negZero(op) {
+		return goatlang.Float64(math.Copysign(0, -1))
+	}
+	return k.value(op.Key)
+}
+
+func (k *kind) lit(op Op) string {
+	if k.negZero(op) {
+		return "(-fz)"
+	}
+	return k.Keys[op.Key]
+}
+
 // keyIndex maps a goatlang key value back to the pool index (-1 if it is no pool key).
 func (k *kind) keyIndex(v goatlang.Value) int {
 	if v.Type() != k.GT {
@@ -112,6 +130,7 @@ type Op struct {
 	Op  string `json:"op"` // set delete get getok len range
 	Key int    `json:"key,omitempty"`
 	Val int32  `json:"val,omitempty"`
+	Neg bool   `json:"neg,omitempty"` // float64 maps, key #0 (zero): spell the key as negative zero (the same key in Go)
 	// range: mutations performed when a given key is visited (first visit only), and an optional early break
 	On    map[int][]Op `json:"on,omitempty"`
 	Break int          `json:"break,omitempty"` // stop after this many visits (0 = run to the end)
@@ -128,9 +147,9 @@ type History struct {
 func genMut(n int) *rapid.Generator[Op] {
 	return rapid.Custom(func(rt *rapid.T) Op {
 		if rapid.Bool().Draw(rt, "mutIsDelete") {
-			return Op{Op: "delete", Key: rx.Uniform(rt, n, "mkey")}
+			return Op{Op: "delete", Key: rx.Uniform(rt, n, "mkey"), Neg: rapid.Bool().Draw(rt, "negzero")}
 		}
-		return Op{Op: "set", Key: rx.Uniform(rt, n, "mkey")}
+		return Op{Op: "set", Key: rx.Uniform(rt, n, "mkey"), Neg: rapid.Bool().Draw(rt, "negzero")}
 	})
 }
 
@@ -139,17 +158,17 @@ func genOp(n int, nilMap bool) *rapid.Generator[Op] {
 		c := rx.Uniform(rt, 100, "opkind")
 		switch {
 		case nilMap && c < 50:
-			return Op{Op: []string{"get", "getok", "len", "delete"}[c%4], Key: rx.Uniform(rt, n, "key")}
+			return Op{Op: []string{"get", "getok", "len", "delete"}[c%4], Key: rx.Uniform(rt, n, "key"), Neg: rapid.Bool().Draw(rt, "negzero")}
 		case nilMap:
 			return Op{Op: "range"}
 		case c < 28:
-			return Op{Op: "set", Key: rx.Uniform(rt, n, "key")}
+			return Op{Op: "set", Key: rx.Uniform(rt, n, "key"), Neg: rapid.Bool().Draw(rt, "negzero")}
 		case c < 50:
-			return Op{Op: "delete", Key: rx.Uniform(rt, n, "key")}
+			return Op{Op: "delete", Key: rx.Uniform(rt, n, "key"), Neg: rapid.Bool().Draw(rt, "negzero")}
 		case c < 60:
-			return Op{Op: "get", Key: rx.Uniform(rt, n, "key")}
+			return Op{Op: "get", Key: rx.Uniform(rt, n, "key"), Neg: rapid.Bool().Draw(rt, "negzero")}
 		case c < 70:
-			return Op{Op: "getok", Key: rx.Uniform(rt, n, "key")}
+			return Op{Op: "getok", Key: rx.Uniform(rt, n, "key"), Neg: rapid.Bool().Draw(rt, "negzero")}
 		case c < 76:
 			return Op{Op: "len"}
 		}
@@ -373,13 +392,13 @@ func runHost(h *History) (f *ev.Failure) {
 	for i, op := range h.Ops {
 		switch op.Op {
 		case "set":
-			gm.Set(k.value(op.Key), goatlang.Int32(op.Val))
+			gm.Set(k.val(op), goatlang.Int32(op.Val))
 			m.apply(op, nil)
 		case "delete":
-			gm.Delete(k.value(op.Key))
+			gm.Delete(k.val(op))
 			m.apply(op, nil)
 		case "get", "getok":
-			v, ok := gm.Get(k.value(op.Key))
+			v, ok := gm.Get(k.val(op))
 			want, wok := m.data[op.Key]
 			if ok != wok || v.Type() != goatlang.TypeInt32 || v.Int32() != want {
 				return fail("host", h, i, fmt.Sprintf("Get(key #%d) = (%v, %v), Go map gives (%d, %v)", op.Key, v.String(), ok, want, wok))
@@ -414,9 +433,9 @@ func runHost(h *History) (f *ev.Failure) {
 					done[ki] = true
 					for _, mu := range op.On[ki] {
 						if mu.Op == "set" {
-							gm.Set(k.value(mu.Key), goatlang.Int32(mu.Val))
+							gm.Set(k.val(mu), goatlang.Int32(mu.Val))
 						} else {
-							gm.Delete(k.value(mu.Key))
+							gm.Delete(k.val(mu))
 						}
 						m.apply(mu, rs)
 					}
@@ -456,6 +475,9 @@ func script(h *History) string {
 		sb.WriteString("func run() {\n")
 		ind = "\t"
 	}
+	if k.Name == "float64" {
+		fmt.Fprintf(&sb, "%sfz := 0.0\n%s_ = fz\n", ind, ind)
+	}
 	if h.NilMap {
 		fmt.Fprintf(&sb, "%svar m map[%s]int\n", ind, k.Name)
 	} else {
@@ -467,9 +489,9 @@ func script(h *History) string {
 	}
 	writeMut := func(ind string, mu Op) {
 		if mu.Op == "set" {
-			fmt.Fprintf(&sb, "%sm[%s] = %d\n", ind, k.Keys[mu.Key], mu.Val)
+			fmt.Fprintf(&sb, "%sm[%s] = %d\n", ind, k.lit(mu), mu.Val)
 		} else {
-			fmt.Fprintf(&sb, "%sdelete(m, %s)\n", ind, k.Keys[mu.Key])
+			fmt.Fprintf(&sb, "%sdelete(m, %s)\n", ind, k.lit(mu))
 		}
 	}
 	for i, op := range h.Ops {
@@ -477,9 +499,9 @@ func script(h *History) string {
 		case "set", "delete":
 			writeMut(ind, op)
 		case "get":
-			fmt.Fprintf(&sb, "%sfmt.Println(\"G\", %d, m[%s])\n", ind, i, k.Keys[op.Key])
+			fmt.Fprintf(&sb, "%sfmt.Println(\"G\", %d, m[%s])\n", ind, i, k.lit(op))
 		case "getok":
-			fmt.Fprintf(&sb, "%sv%d, ok%d := m[%s]\n%sfmt.Println(\"O\", %d, v%d, ok%d)\n", ind, i, i, k.Keys[op.Key], ind, i, i, i)
+			fmt.Fprintf(&sb, "%sv%d, ok%d := m[%s]\n%sfmt.Println(\"O\", %d, v%d, ok%d)\n", ind, i, i, k.lit(op), ind, i, i, i)
 		case "len":
 			fmt.Fprintf(&sb, "%sfmt.Println(\"L\", %d, len(m))\n", ind, i)
 		case "range":
@@ -592,6 +614,9 @@ func runScript(h *History) *ev.Failure {
 					if p == keyText {
 						ki = j
 					}
+				}
+				if ki < 0 && k.Name == "float64" && keyText == "-0" {
+					ki = 0 // Go keeps whichever zero was stored last as the key; both are key #0
 				}
 				if ki < 0 {
 					return failS(i, fmt.Sprintf("range yielded key %q, which is not a key that was ever inserted (as Go prints them: %q)", keyText, k.Prints))
